@@ -5,7 +5,7 @@ from fractions import Fraction
 from ..model import AnalysisError, unparse, walk_local
 from ..paths import Evaluator, is_c, show, C, S, NONE, subterms, substitute
 from ..poly import Poly
-from .common import mk_algebra, trace_tail, loop_containing_call, flatten_comp
+from .common import mk_algebra, trace_tail, loop_containing_call, flatten_comp, loop_counters, loop_counter_heads
 from .c06 import _decode_fref
 from . import pools
 
@@ -80,6 +80,19 @@ def _strip_shape(t):
     while t[0] == 'sub' and _shape_only_index(t[2]):
         t = t[1]
     return t
+
+
+def _is_layer_index(k, trace, heads, alg):
+    """k is the number of layers completed so far: 0 in the first (peeled) iteration of the layer loop, the loop-head
+    value of the layer counter afterwards (whatever the counter is called and wherever in the body it is stepped)"""
+    first = any('while[1]' in t for t in trace[-14:]) and not any('iteration>=2' in t for t in trace)
+    try:
+        pk = alg.poly(k)
+    except Exception:
+        return False
+    if first:
+        return pk == alg.poly(C(0))
+    return any(pk == alg.poly(h) for h in heads)
 
 
 def _reduction_body(t):
@@ -292,6 +305,8 @@ def rule_grids(ctx, rid):
     ladder_ok = None
     idx_ok = True
     arrays = set()
+    layer_names = loop_counters(exits, loop, alg)       # the layer counter, found by role (0 at entry, +1 per layer)
+    layer_heads = loop_counter_heads(exits, loop, layer_names)
     for bound, env, trace, conds in recs:
         z = bound.get('z')
         if not (z is not None and z[0] == 'sub'):
@@ -299,8 +314,7 @@ def rule_grids(ctx, rid):
             continue
         arr, k = z[1], z[2]
         arrays.add(arr)
-        layer = env.get('imf_layer')
-        if k != layer:
+        if not any(k == env.get(nm_) for nm_ in layer_names):
             idx_ok = False
         if arr[0] == 'call' and arr[1] == 'numpy.array' and arr[2] and arr[2][0][0] == 'comp':
             comp = arr[2][0]
@@ -398,6 +412,8 @@ def rule_amplitude(ctx, rid):
         ev = Evaluator(P, callee_hook=hook)
         exits = ev.run(ms, context={'mask_amp_mode': mode, 'ret_mask_freq': False})
         ctx.paths += len(exits)
+        layer_names = loop_counters(exits, loop, alg)
+        layer_heads = loop_counter_heads(exits, loop, layer_names)
         ctx.contexts.append({'function': ms.qualname, 'mask_amp_mode': mode})
         c = "mask_amp_mode '%s': amp = mask_amp[.layer] * %s" % (
             mode, {'ratio_imf': 'std(X) first, then std(previous IMF)', 'ratio_sig': 'std(X)', 'abs': '1'}[mode])
@@ -412,7 +428,11 @@ def rule_amplitude(ctx, rid):
             p = alg.poly(amp)
             first = any('while[1]' in t for t in trace[-12:]) and not any('iteration>=2' in t for t in trace)
             # scale factor: mask_amp or mask_amp[layer]
-            scal = [alg.poly(S('mask_amp')), alg.poly(('sub', S('mask_amp'), env.get('imf_layer', C(0))))]
+            scal = [alg.poly(S('mask_amp'))]
+            amp_idx = [t_ for t_ in subterms(amp) if t_[0] == 'sub' and t_[1] == S('mask_amp')]
+            for t_ in amp_idx:
+                if any(t_[2] == env.get(nm_) for nm_ in layer_names):
+                    scal.append(alg.poly(t_))
             stdX = ('meth', 'std', ('call', 'emd.support.ensure_1d_with_singleton', (), ()), (), ())
             std_atoms = [a for a in p.atoms() if '.std(' in a or 'numpy.std(' in a]
             if mode == 'abs':
